@@ -390,12 +390,12 @@ func handleUIDCopy(deps ServerDeps, conn net.Conn, tag string, parts []string, s
 	}
 	defer func() { _ = tx.Rollback() }()
 
-	// Get next UID for destination mailbox
+	// Get next UID for destination mailbox from its UID counter, so that a
+	// UID is never handed out twice (RFC 3501 section 2.3.1.1)
 	var nextUID int64
 	err = tx.QueryRow(`
-		SELECT COALESCE(MAX(uid), 0) + 1
-		FROM message_mailbox
-		WHERE mailbox_id = ?
+		SELECT uid_next FROM mailboxes
+		WHERE id = ?
 	`, destMailboxID).Scan(&nextUID)
 
 	if err != nil {
@@ -441,6 +441,13 @@ func handleUIDCopy(deps ServerDeps, conn net.Conn, tag string, parts []string, s
 		}
 
 		nextUID++
+	}
+
+	// Advance the destination's UID counter past the UIDs just assigned
+	_, err = tx.Exec("UPDATE mailboxes SET uid_next = ? WHERE id = ?", nextUID, destMailboxID)
+	if err != nil {
+		deps.SendResponse(conn, fmt.Sprintf("%s NO UID COPY failed: %v", tag, err))
+		return
 	}
 
 	// Commit transaction
